@@ -8,3 +8,4 @@ import OlVerif.Props.C01
 #print axioms OlVerif.C01.module_level_expressions_unchanged
 #print axioms OlVerif.C01.Ex.prog_runs
 #print axioms OlVerif.C01.fragment_decidable_sound
+#print axioms OlVerif.C01.module_with_while_semantics
